@@ -182,7 +182,7 @@ pub fn run(ctx: &Ctx) -> Report {
     });
     total.merge(ch);
     total.exhaustive_parts.push("chains of up to 300 (quick: 11 sizes, thorough: every size 1..310) distinct file destinations with all three terminators".into());
-    let cases = ctx.tier.pick(20_000u32, 400_000u32);
+    let cases = ctx.tier.pick(160_000u32, 1_600_000u32);
     let rnd = run_shards(16, |shard| {
         let mut st = Stats::new();
         let leaf = prop_oneof![5 => routing_action().prop_map(E::A), 1 => Just(E::T(Tst::True)), 1 => Just(E::T(Tst::False)), 1 => Just(E::T(Tst::Name("a".into()))), 1 => Just(E::T(Tst::IName("*.C".into())))];
